@@ -272,6 +272,18 @@ theorem mem_ents_contract {T T1 : PT V} {dir : Nat → Bool} (hc : Crit T) (h : 
           · exact .inl he
           · exact .inr ⟨he, hne⟩
 
+theorem mem_leafIdx_of_mem_inners' {T : PT V} (hs : SelfBelow T) {x : Nat} (hx : x ∈ inners T) : x ∈ leafIdx T := by
+  induction T with
+  | leaf => simp [inners] at hx
+  | inner i bp l r ihl ihr =>
+    obtain ⟨hi, hl, hr⟩ := hs
+    simp only [inners, List.mem_cons, List.mem_append] at hx
+    simp only [leafIdx, List.mem_append] at hi ⊢
+    rcases hx with rfl | hx | hx
+    · exact hi
+    · exact .inl (ihl hl hx)
+    · exact .inr (ihr hr hx)
+
 /-! ### the nodes the deletion loops find -/
 
 /-- `(rp, r, n)` after the first loop, started with `rp, r` above the link to `T` -/
@@ -296,6 +308,34 @@ def cutAt : PT V → Nat → Bool → (Nat → Bool) → Nat × Bool × Nat
       (match l with
        | leaf _ _ _ => (pi, sd, idx r)
        | inner _ _ _ _ => cutAt l i false dir)
+
+theorem cutAt_prev (T : PT V) (pi : Nat) (sd : Bool) (dir : Nat → Bool) :
+    ((cutAt T pi sd dir).1 = pi ∧ (cutAt T pi sd dir).2.1 = sd) ∨ (cutAt T pi sd dir).1 ∈ inners T := by
+  induction T generalizing pi sd with
+  | leaf => simp [cutAt]
+  | inner i bp l r ihl ihr =>
+    simp only [cutAt]
+    split
+    · cases r with
+      | leaf => simp
+      | inner j bp' l' r' =>
+        rcases ihr i true with h | h
+        · right; simp only [h.1, inners]; simp
+        · right
+          have : (cutAt (inner j bp' l' r') i true dir).1 ∈ inners l ++ inners (inner j bp' l' r') :=
+            List.mem_append.mpr (.inr h)
+          simp only [inners, List.mem_cons]
+          exact .inr this
+    · cases l with
+      | leaf => simp
+      | inner j bp' l' r' =>
+        rcases ihl i false with h | h
+        · right; simp only [h.1, inners]; simp
+        · right
+          have : (cutAt (inner j bp' l' r') i false dir).1 ∈ inners (inner j bp' l' r') ++ inners r :=
+            List.mem_append.mpr (.inl h)
+          simp only [inners, List.mem_cons]
+          exact .inr this
 
 theorem findEnd_n (T : PT V) (rp r : Nat) (dir : Nat → Bool) : (findEnd T rp r dir).2.2 = (descendD T dir).1 := by
   induction T generalizing rp r with
@@ -416,6 +456,201 @@ theorem length_ents_contract {T T1 : PT V} {dir : Nat → Bool} (h : contract T 
         cases h
         have := ihl hl'
         simp only [ents, List.length_append]; omega
+
+theorem cutAt_fst (T : PT V) (pi rp0 : Nat) (sd : Bool) (dir : Nat → Bool) (hT : ∃ i bp l r, T = inner i bp l r) :
+    (cutAt T pi sd dir).1 = (findEnd T rp0 pi dir).1 := by
+  induction T generalizing pi rp0 sd with
+  | leaf => obtain ⟨_, _, _, _, h⟩ := hT; cases h
+  | inner i bp l r ihl ihr =>
+    simp only [cutAt, findEnd]
+    split
+    · cases r with
+      | leaf => rfl
+      | inner j bp' l' r' => exact ihr i pi true ⟨_, _, _, _, rfl⟩
+    · cases l with
+      | leaf => rfl
+      | inner j bp' l' r' => exact ihl i pi false ⟨_, _, _, _, rfl⟩
+
+/-- the removed leaf hangs off its own node: the second loop stops at that node, whose parent is `rp` -/
+theorem parentEnd_of_self (T : PT V) (pi rp0 : Nat) (dir : Nat → Bool) (hnd : (inners T).Nodup)
+    (hT : ∃ i bp l r, T = inner i bp l r) (h : (findEnd T rp0 pi dir).2.1 = (findEnd T rp0 pi dir).2.2) :
+    parentEnd T pi (findEnd T rp0 pi dir).2.2 dir = (findEnd T rp0 pi dir).1 := by
+  induction T generalizing pi rp0 with
+  | leaf => obtain ⟨_, _, _, _, h⟩ := hT; cases h
+  | inner i bp l r ihl ihr =>
+    simp only [inners, List.nodup_cons, List.mem_append, not_or, List.nodup_append] at hnd
+    obtain ⟨⟨hil, hir⟩, hnl, hnr, _⟩ := hnd
+    simp only [findEnd, parentEnd] at h ⊢
+    by_cases hd : dir bp = true
+    · simp only [hd, if_true] at h ⊢
+      cases r with
+      | leaf j k v => exact if_pos h
+      | inner j bp' l' r' =>
+        have hrr := findEnd_r (inner j bp' l' r') pi i dir
+        rcases hrr with ⟨⟨_, _, _, hh⟩, _⟩ | ⟨_, hmem, _⟩
+        · cases hh
+        · have hne : i ≠ (findEnd (inner j bp' l' r') pi i dir).2.2 := by
+            intro e; rw [← h] at e; exact hir (e ▸ hmem)
+          rw [if_neg hne]
+          exact ihr i pi hnr ⟨_, _, _, _, rfl⟩ h
+    · simp only [hd, Bool.false_eq_true, if_false] at h ⊢
+      cases l with
+      | leaf j k v => exact if_pos h
+      | inner j bp' l' r' =>
+        have hrr := findEnd_r (inner j bp' l' r') pi i dir
+        rcases hrr with ⟨⟨_, _, _, hh⟩, _⟩ | ⟨_, hmem, _⟩
+        · cases hh
+        · have hne : i ≠ (findEnd (inner j bp' l' r') pi i dir).2.2 := by
+            intro e; rw [← h] at e; exact hil (e ▸ hmem)
+          rw [if_neg hne]
+          exact ihl i pi hnl ⟨_, _, _, _, rfl⟩ h
+
+/-- the removed leaf's node is not an inner node (it is the root): the second loop runs down to the leaf -/
+theorem parentEnd_of_not_inner (T : PT V) (pi rp0 n : Nat) (dir : Nat → Bool) (hn : n ∉ inners T) :
+    parentEnd T pi n dir = (findEnd T rp0 pi dir).2.1 := by
+  induction T generalizing pi rp0 with
+  | leaf => rfl
+  | inner i bp l r ihl ihr =>
+    simp only [inners, List.mem_cons, List.mem_append, not_or] at hn
+    have : ¬ i = n := fun e => hn.1 e.symm
+    simp only [parentEnd, findEnd, this, if_false]
+    split
+    · exact ihr i pi hn.2.2
+    · exact ihl i pi hn.2.1
+
+/-- after the contraction and the renaming every node again lies above its own thread -/
+theorem selfBelow_del {T T1 : PT V} {dir : Nat → Bool} (hs : SelfBelow T) (hnd : (leafIdx T).Nodup)
+    (hni : (inners T).Nodup) (h : contract T dir = some T1) (rp0 pi : Nat) :
+    SelfBelow (rename (descendD T dir).1 (findEnd T rp0 pi dir).2.1 T1) ∧
+    (∀ x ∈ leafIdx T, x ≠ (descendD T dir).1 → x ∈ leafIdx T1) ∧
+    ((findEnd T rp0 pi dir).2.1 ≠ (descendD T dir).1 → (findEnd T rp0 pi dir).2.1 ∈ leafIdx T1) := by
+  induction T generalizing T1 rp0 pi with
+  | leaf => simp [contract] at h
+  | inner i bp l r ihl ihr =>
+    obtain ⟨hi, hsl, hsr⟩ := hs
+    have hnd0 := hnd
+    simp only [leafIdx, List.nodup_append] at hnd
+    obtain ⟨hndl, hndr, hdis⟩ := hnd
+    simp only [inners, List.nodup_cons, List.mem_append, not_or, List.nodup_append] at hni
+    obtain ⟨⟨hil, hir⟩, hnil, hnir, hdisi⟩ := hni
+    simp only [contract] at h
+    simp only [descendD, findEnd]
+    by_cases hd : dir bp = true
+    · simp only [hd, if_true] at h ⊢
+      -- the removed leaf is on the right: its index is not an inner node of `l`
+      have hnl : (descendD r dir).1 ∉ inners l := by
+        intro hmem
+        exact hdis _ (mem_leafIdx_of_mem_inners' hsl hmem) _ (descendD_idx_mem r dir) rfl
+      cases r with
+      | leaf j k v =>
+        simp only [contract] at h
+        cases h
+        simp only [descendD, findEnd] at hnl ⊢
+        refine ⟨by rw [rename_of_not_mem _ hnl]; exact hsl, ?_, ?_⟩
+        · intro x hx hne
+          simp only [leafIdx, List.mem_append, List.mem_singleton] at hx
+          rcases hx with hx | hx
+          · exact hx
+          · exact absurd hx hne
+        · intro hne
+          simp only [leafIdx, List.mem_append, List.mem_singleton] at hi
+          rcases hi with hi | hi
+          · exact hi
+          · exact absurd hi hne
+      | inner j bp' l' r' =>
+        have hsome : ∃ r1, contract (inner j bp' l' r') dir = some r1 := by
+          cases hc : contract (inner j bp' l' r') dir with
+          | none => obtain ⟨_, _, _, hh⟩ := (contract_none_iff _ dir).mp hc; cases hh
+          | some r1 => exact ⟨r1, rfl⟩
+        obtain ⟨r1, hr1⟩ := hsome
+        rw [hr1] at h
+        cases h
+        obtain ⟨ih1, ih2, ih3⟩ := ihr hsr hndr hnir hr1 pi i
+        have hrr := findEnd_r (inner j bp' l' r') pi i dir
+        have hrrmem : (findEnd (inner j bp' l' r') pi i dir).2.1 ∈ inners (inner j bp' l' r') := by
+          rcases hrr with ⟨⟨_, _, _, hh⟩, _⟩ | ⟨_, hmem, _⟩
+          · cases hh
+          · exact hmem
+        refine ⟨?_, ?_, ?_⟩
+        · simp only [rename]
+          refine ⟨?_, by rw [rename_of_not_mem _ hnl]; exact hsl, ih1⟩
+          simp only [leafIdx_rename, List.mem_append]
+          by_cases hin : i = (descendD (inner j bp' l' r') dir).1
+          · rw [if_pos hin]
+            right
+            apply ih3
+            intro e
+            exact hir (by rw [← e] at hin; exact hin ▸ hrrmem)
+          · rw [if_neg hin]
+            rcases List.mem_append.mp hi with hi | hi
+            · exact .inl hi
+            · exact .inr (ih2 i hi hin)
+        · intro x hx hne
+          have hx' : x ∈ leafIdx l ++ leafIdx (inner j bp' l' r') := hx
+          show x ∈ leafIdx l ++ leafIdx r1
+          rcases List.mem_append.mp hx' with hx | hx
+          · exact List.mem_append.mpr (.inl hx)
+          · exact List.mem_append.mpr (.inr (ih2 x hx hne))
+        · intro hne
+          simp only [leafIdx, List.mem_append]
+          exact .inr (ih3 hne)
+    · simp only [hd, Bool.false_eq_true, if_false] at h ⊢
+      have hnr : (descendD l dir).1 ∉ inners r := by
+        intro hmem
+        exact hdis _ (descendD_idx_mem l dir) _ (mem_leafIdx_of_mem_inners' hsr hmem) rfl
+      cases l with
+      | leaf j k v =>
+        simp only [contract] at h
+        cases h
+        simp only [descendD, findEnd] at hnr ⊢
+        refine ⟨by rw [rename_of_not_mem _ hnr]; exact hsr, ?_, ?_⟩
+        · intro x hx hne
+          simp only [leafIdx, List.cons_append, List.nil_append, List.mem_cons] at hx
+          rcases hx with hx | hx
+          · exact absurd hx hne
+          · exact hx
+        · intro hne
+          simp only [leafIdx, List.cons_append, List.nil_append, List.mem_cons] at hi
+          rcases hi with hi | hi
+          · exact absurd hi hne
+          · exact hi
+      | inner j bp' l' r' =>
+        have hsome : ∃ l1, contract (inner j bp' l' r') dir = some l1 := by
+          cases hc : contract (inner j bp' l' r') dir with
+          | none => obtain ⟨_, _, _, hh⟩ := (contract_none_iff _ dir).mp hc; cases hh
+          | some l1 => exact ⟨l1, rfl⟩
+        obtain ⟨l1, hl1⟩ := hsome
+        rw [hl1] at h
+        cases h
+        obtain ⟨ih1, ih2, ih3⟩ := ihl hsl hndl hnil hl1 pi i
+        have hrr := findEnd_r (inner j bp' l' r') pi i dir
+        have hrrmem : (findEnd (inner j bp' l' r') pi i dir).2.1 ∈ inners (inner j bp' l' r') := by
+          rcases hrr with ⟨⟨_, _, _, hh⟩, _⟩ | ⟨_, hmem, _⟩
+          · cases hh
+          · exact hmem
+        refine ⟨?_, ?_, ?_⟩
+        · simp only [rename]
+          refine ⟨?_, ih1, by rw [rename_of_not_mem _ hnr]; exact hsr⟩
+          simp only [leafIdx_rename, List.mem_append]
+          by_cases hin : i = (descendD (inner j bp' l' r') dir).1
+          · rw [if_pos hin]
+            left
+            apply ih3
+            intro e
+            exact hil (by rw [← e] at hin; exact hin ▸ hrrmem)
+          · rw [if_neg hin]
+            rcases List.mem_append.mp hi with hi | hi
+            · exact .inl (ih2 i hi hin)
+            · exact .inr hi
+        · intro x hx hne
+          have hx' : x ∈ leafIdx (inner j bp' l' r') ++ leafIdx r := hx
+          show x ∈ leafIdx l1 ++ leafIdx r
+          rcases List.mem_append.mp hx' with hx | hx
+          · exact List.mem_append.mpr (.inl (ih2 x hx hne))
+          · exact List.mem_append.mpr (.inr hx)
+        · intro hne
+          simp only [leafIdx, List.mem_append]
+          exact .inl (ih3 hne)
 
 end PT
 end AlgoVerif.C06
